@@ -23,11 +23,11 @@ PY = sys.executable
 BUDGET = {
     # thorough: longer histories (to 120 ops), instruction-level interrupts, the real torch optimiser, 5 % real-
     # subprocess restarts, 2000 re-executed runs for the determinism self-test, then the mutant suite:
-    # about 20-30 min per property on 16 cores (VERIF_RUNS overrides the run count for soaks)
-    "C10": {"quick": 36000, "thorough": 80000},
-    "C13": {"quick": 16000, "thorough": 40000},
-    "C14": {"quick": 36000, "thorough": 80000},
-    "C15": {"quick": 16000, "thorough": 40000},
+    # about 30-40 min per property on 16 cores (VERIF_RUNS overrides the run count for soaks)
+    "C10": {"quick": 36000, "thorough": 200000},
+    "C13": {"quick": 16000, "thorough": 100000},
+    "C14": {"quick": 36000, "thorough": 200000},
+    "C15": {"quick": 16000, "thorough": 100000},
 }
 SELFTEST = {"quick": 64, "thorough": 2000}
 SHRINK_PER_WORKER = 4
